@@ -334,7 +334,8 @@ def body_helper(c, ctx):
     rng = np.random.RandomState(c['seed'])
 
     def rnd(*lead):
-        return rng.randint(-8, 9, lead + trail) / 4.0
+        # dyadic numbers with a 2^-30 part: exact in double precision, NOT representable in single precision
+        return rng.randint(-8, 9, lead + trail) / 4.0 + rng.randint(-3, 4, lead + trail) * 2.0 ** -30
     lib = c['lib']
     if lib == 'jax':
         import jax.numpy as jnp
